@@ -1,15 +1,52 @@
 import Dmn.Model.Sexp
+import Dmn.Driver.C01
+import Dmn.Driver.C02
+import Dmn.Driver.C03
+import Dmn.Driver.C04
+import Dmn.Driver.C05
+import Dmn.Driver.C06
+import Dmn.Driver.C07
+import Dmn.Driver.C08
+import Dmn.Driver.C09
+import Dmn.Driver.C10
+import Dmn.Driver.C11
+import Dmn.Driver.C12
+import Dmn.Driver.C13
+import Dmn.Driver.C14
+import Dmn.Driver.C15
 import Dmn.Driver.C16
 import Dmn.Driver.C17
+import Dmn.Driver.C18
+import Dmn.Driver.C19
+import Dmn.Driver.C20
 
-/-! `dmn_driver`: one request per line on stdin, one answer per line on stdout. -/
+/-! `dmn_driver`: one request per line on stdin, one answer per line on stdout.
+The first atom of a request selects the property's handler (`c01` … `c20`). -/
 
 open Dmn
 
 def dispatch (line : String) : String :=
   match Sexp.parse line with
+  | some (.list (.atom "c01" :: args)) => Dmn.Driver.C01.handle args
+  | some (.list (.atom "c02" :: args)) => Dmn.Driver.C02.handle args
+  | some (.list (.atom "c03" :: args)) => Dmn.Driver.C03.handle args
+  | some (.list (.atom "c04" :: args)) => Dmn.Driver.C04.handle args
+  | some (.list (.atom "c05" :: args)) => Dmn.Driver.C05.handle args
+  | some (.list (.atom "c06" :: args)) => Dmn.Driver.C06.handle args
+  | some (.list (.atom "c07" :: args)) => Dmn.Driver.C07.handle args
+  | some (.list (.atom "c08" :: args)) => Dmn.Driver.C08.handle args
+  | some (.list (.atom "c09" :: args)) => Dmn.Driver.C09.handle args
+  | some (.list (.atom "c10" :: args)) => Dmn.Driver.C10.handle args
+  | some (.list (.atom "c11" :: args)) => Dmn.Driver.C11.handle args
+  | some (.list (.atom "c12" :: args)) => Dmn.Driver.C12.handle args
+  | some (.list (.atom "c13" :: args)) => Dmn.Driver.C13.handle args
+  | some (.list (.atom "c14" :: args)) => Dmn.Driver.C14.handle args
+  | some (.list (.atom "c15" :: args)) => Dmn.Driver.C15.handle args
   | some (.list (.atom "c16" :: args)) => Dmn.Driver.C16.handle args
   | some (.list (.atom "c17" :: args)) => Dmn.Driver.C17.handle args
+  | some (.list (.atom "c18" :: args)) => Dmn.Driver.C18.handle args
+  | some (.list (.atom "c19" :: args)) => Dmn.Driver.C19.handle args
+  | some (.list (.atom "c20" :: args)) => Dmn.Driver.C20.handle args
   | some _ => "(error unknown-family)"
   | none => "(error parse)"
 
